@@ -216,6 +216,21 @@ pub fn parse_op(s: &mut Session, text: &str, gen_kind: &str) -> Option<Option<Co
     res
 }
 
+/// Strings for the CLI-level part: the corpus plus generated valid, edited and random strings.
+pub fn sample_strings(n: usize, seed: u64) -> Vec<String> {
+    let mut rng = Rng::new(seed);
+    let mut v: Vec<String> = corpus().iter().map(|s| s.to_string()).collect();
+    for i in 0..n {
+        let (base, _) = render(&mut rng);
+        v.push(match i % 4 {
+            0 | 1 => wrap_ws(&mut rng, base),
+            2 => edit(&mut rng, &base),
+            _ => random_string(&mut rng),
+        });
+    }
+    v
+}
+
 pub fn corpus() -> Vec<&'static str> {
     vec![
         "", " ", "#", "f09", "#f09", "#F09", "#ff0099", "ff009980", "#f098", "#1", "#12", "#12345", "#1234567", "#123456789", "#hh0033",
